@@ -949,7 +949,7 @@ func (c *CEnv) callFn(e *Expr) cv {
 		return cv{V: app(c.x.e.sortOf(t), unm, c.term(e.Args[0])), T: t}
 	case "getraw":
 		return cv{V: app(SString, "getraw", c.term(e.Args[0]))}
-	case "unm_Attestation", "unm_GenericClaim", "unm_Prices", "unm_Holders":
+	case "unm_Attestation", "unm_GenericClaim", "unm_Prices", "unm_Holders", "unm_SendToExternal":
 		t := c.x.e.msgTypeByName(strings.TrimPrefix(name, "unm_"))
 		_, unm := c.x.e.marshalFn(t)
 		return cv{V: app(c.x.e.sortOf(t), unm, c.term(e.Args[0])), T: t}
